@@ -84,6 +84,25 @@ pub fn run(a: &Args) {
             Chunk::new(b"tEXt", b"k\0v".to_vec()), Chunk::new(b"IEND", vec![])];
         files.push((format!("actl{}", nf), assemble(&chunks)));
     }
+    // animations WITHOUT an IDAT: every frame is fdAT-only; metadata chunks that change the output format arrive between frames
+    for (c, d) in [(0u8, 8u8), (0, 16), (2, 8), (3, 8), (0, 2)] {
+        for late in [b"tRNS", b"PLTE", b"sBIT", b"gAMA"] {
+            let bits = match c { 2 => 3, _ => 1 } * d as usize;
+            let row = (2 * bits + 7) / 8;
+            let raw: Vec<u8> = (0..2 * (1 + row)).map(|i| if i % (1 + row) == 0 { 0 } else { i as u8 }).collect();
+            let z = zlib_stored(&raw, raw.len());
+            let payload: Vec<u8> = match &late[..] { b"tRNS" => if c == 2 { vec![0, 1, 0, 2, 0, 3] } else { vec![0, 1] }, b"PLTE" => vec![1, 2, 3, 4, 5, 6], b"sBIT" => vec![1; if c == 2 { 3 } else { 1 }], _ => vec![0, 1, 134, 160] };
+            let mut chunks = vec![ihdr(2, 2, d, c, 0), actl_chunk(2, 0)];
+            if c == 3 { chunks.push(Chunk::new(b"PLTE", vec![9, 8, 7, 6, 5, 4])); }
+            chunks.push(fctl_chunk(0, 2, 2, 0, 0, 1, 1, 0, 0));
+            chunks.push(fdat_chunk(1, &z));
+            chunks.push(Chunk::new(late, payload));
+            chunks.push(fctl_chunk(2, 2, 2, 0, 0, 1, 1, 0, 0));
+            chunks.push(fdat_chunk(3, &z));
+            chunks.push(Chunk::new(b"IEND", vec![]));
+            files.push((format!("no-idat-c{}d{}-late-{}", c, d, String::from_utf8_lossy(&late[..])), assemble(&chunks)));
+        }
+    }
     let corpus = corpus_files(if thorough { 100000 } else { 4000 }, if thorough { 600 } else { 60 }, &mut rng);
     for (n, b) in corpus {
         if let Some(r) = repair_crcs(&b) {
